@@ -268,6 +268,9 @@ class SignatureInfo:
     # resulting `Partial`.
     parameters = list(self.parameters.values())
     positional_values = []
+    # Positions (in `positional_values`) of positional parameters that have no
+    # value; only tracked if `include_no_value` is False.
+    unset_positions = {}
     for index, param in enumerate(parameters):
       if param.kind == param.POSITIONAL_ONLY:
         if index in arguments:
@@ -275,6 +278,9 @@ class SignatureInfo:
           del arguments[index]
         elif include_no_value:
           positional_values.append(self.get_default(index, NO_VALUE))
+        else:
+          unset_positions[len(positional_values)] = param
+          positional_values.append(NO_VALUE)
       if param.kind == param.POSITIONAL_OR_KEYWORD:
         if include_pos_or_kw_in_args or self.var_positional_start in arguments:
           if param.name in arguments:
@@ -282,12 +288,29 @@ class SignatureInfo:
             del arguments[param.name]
           elif include_no_value:
             positional_values.append(self.get_default(index, NO_VALUE))
+          else:
+            unset_positions[len(positional_values)] = param
+            positional_values.append(NO_VALUE)
     if self.var_positional_start is not None:
       index = self.var_positional_start
       while index in arguments:
         positional_values.append(arguments[index])
         del arguments[index]
         index += 1
+    # Unset positional parameters can only be omitted at the end of the
+    # positional list. If a later positional value is set, then an unset
+    # parameter must be passed explicitly (as its default value), otherwise
+    # the later values would be bound to the wrong parameters.
+    while len(positional_values) - 1 in unset_positions:
+      del unset_positions[len(positional_values) - 1]
+      positional_values.pop()
+    for position, param in unset_positions.items():
+      if param.default is param.empty:
+        raise TypeError(
+            f'Missing value for positional parameter {param.name!r}: it has no'
+            ' default, but a later positional argument is set.'
+        )
+      positional_values[position] = param.default
     return positional_values, arguments
 
   def validate_param_name(self, name, fn_or_cls) -> None:
